@@ -116,6 +116,83 @@ def build(P):
         f = lambda t: a + (b - a) * (t - t1) / (t2 - t1)
         return [t1 < t2], z3.And(f(t1) == a, f(t2) == b)
     P.lemma("interpolation_reproduces_the_neighbours_at_their_own_time", exact_at_ends)
+    # ------------------------------------------------------------------ object interpolation: state, object, object list
+    import z3 as _z3
+    from pyvc.externals.misc import _shallow_copy
+    from pyvc.lemmas import count_fn, add_count_lemmas, pred_fn, int_fn
+    add_count_lemmas(P)
+    SLERP = _z3.Function("slerp", I, I, R, I)
+    COPY = _z3.Function("is_copy_of", I, I, _z3.BoolSort())
+
+    def _slerp(interp, args, kwargs, node):
+        # Quaternion.slerp(q0, q1, amount) called through an instance: args = (receiver, q0, q1, amount)
+        q0, q1, a = args[-3], args[-2], args[-1]
+        from pyvc.ops import to_real_z
+        az = to_real_z(interp.unwrap(a, node))
+        z = SLERP(q0.z, q1.z, az)
+        interp.ctx.assume(_z3.And(SLERP(q0.z, q1.z, _z3.RealVal(0)) == q0.z, SLERP(q0.z, q1.z, _z3.RealVal(1)) == q1.z))
+        return VOpaque("quaternion", z)
+
+    def _deepcopy(interp, args, kwargs, node):
+        new = _shallow_copy(interp, args, kwargs, node)
+        if new.kind == "sobj":
+            interp.ctx.assume(COPY(new.z, args[0].z))
+        return new
+
+    def spec_slerp(interp, e, fr):
+        q0, q1, a = (interp.ev(x, fr) for x in e.args)
+        from pyvc.ops import to_real_z
+        return VOpaque("quaternion", SLERP(q0.z, q1.z, to_real_z(a)))
+
+    def spec_same_quat(interp, e, fr):
+        a, b = interp.ev(e.args[0], fr), interp.ev(e.args[1], fr)
+        return VBool(a.z == b.z)
+
+    def spec_copy(interp, e, fr):
+        a, b = interp.ev(e.args[0], fr), interp.ev(e.args[1], fr)
+        return VBool(COPY(a.z, b.z))
+
+    def install_geo(it):
+        from pyvc.externals import _wrap
+        it.externals["quaternion.slerp"] = _wrap(it, "quaternion.slerp", _slerp, "Quaternion.slerp(q0, q1, a) is a function of its arguments with slerp(.., 0) = q0 and slerp(.., 1) = q1 (the shortest arc is pyquaternion's)")
+        it.externals["copy.deepcopy"] = _wrap(it, "copy.deepcopy", _deepcopy, "deepcopy(x) is a new object of the same class whose fields hold equal values")
+        it.spec_funcs.update(slerp_of=spec_slerp, same_quat=spec_same_quat, is_copy_of=spec_copy)
+    P.install(install_geo)
+    T3 = TTuple(TReal(), TReal(), TReal())
+    st = P.model(ClassModel("ObjectState", {"position": T3, "orientation": TOpaque("quaternion"), "shape": TOpaque("shape"), "velocity": T3,
+                                            "pose_covariance": TOpt(TReal()), "twist_covariance": TOpt(TReal())}, repo_class=idx.lookup("common.object:ObjectState")))
+    st.alloc_smt = True
+    P.model(ClassModel("DynamicObject", {"unix_time": TInt(), "uuid": TOpt(TStr()), "state": TSObj("ObjectState"), "frame_id": TEnum(idx.lookup("common.schema:FrameID"))},
+                       repo_class=idx.lookup("common.object:DynamicObject")))
+    ST, DO = TSObj("ObjectState"), TSObj("DynamicObject")
+    tp = {"t1": TReal(), "t2": TReal(), "t": TReal()}
+    ALPHA = "((t - t1) / (t2 - t1))"
+    lin = lambda a, b, k: f"{a}[{k}] + ({b}[{k}] - {a}[{k}]) * (t - t1) / (t2 - t1)"
+    inline_list = {idx.lookup(f"{GEO}:interpolate_list").fq: Contract(f"{GEO}:interpolate_list", cut=False)}
+    P.verify(f"{GEO}:interpolate_quaternion", name="interpolate_quaternion",
+             contract=Contract(f"{GEO}:interpolate_quaternion", cut=False, params=dict(tp, quat_1=TOpaque("quaternion"), quat_2=TOpaque("quaternion")),
+                               requires=E("distinct_times", "t1 < t2"), raises={"AssertionError": "not (t1 <= t and t <= t2)"},
+                               ensures=E("slerp_at_the_proportional_time", f"same_quat(result, slerp_of(quat_1, quat_2, {ALPHA}))",
+                                         "reproduces_the_neighbours_at_their_own_time", "implies(t == t1, same_quat(result, quat_1)) and implies(t == t2, same_quat(result, quat_2))")))
+    state_ens = E("position_on_the_segment_at_the_proportional_time", " and ".join(f"result.position[{k}] == {lin('state_1.position', 'state_2.position', k)}" for k in range(3)),
+                  "orientation_on_the_arc_at_the_proportional_time", f"same_quat(result.orientation, slerp_of(state_1.orientation, state_2.orientation, {ALPHA}))",
+                  "velocity_interpolated_linearly", " and ".join(f"result.velocity[{k}] == {lin('state_1.velocity', 'state_2.velocity', k)}" for k in range(3)),
+                  "a_new_state", "is_new(result) and allocated(result)")
+    P.verify(f"{GEO}:interpolate_state", name="interpolate_state",
+             contract=Contract(f"{GEO}:interpolate_state", cut=False, params=dict(tp, state_1=ST, state_2=ST),
+                               requires=E("distinct_times", "t1 < t2"), raises={"AssertionError": "not (t1 <= t and t <= t2)"}, ensures=state_ens),
+             extra_contracts=inline_list)
+    state_cut = Contract(f"{GEO}:interpolate_state", params={}, returns=ST, requires=E("distinct_times", "t1 < t2"), raises={"AssertionError": "not (t1 <= t and t <= t2)"}, ensures=state_ens)
+    obj_ens = E("pose_on_the_segment_and_arc", " and ".join(f"result.state.position[{k}] == {lin('object_1.state.position', 'object_2.state.position', k)}" for k in range(3)) +
+                f" and same_quat(result.state.orientation, slerp_of(object_1.state.orientation, object_2.state.orientation, {ALPHA}))",
+                "same_identity_and_frame", "result.uuid == object_1.uuid and result.frame_id is object_1.frame_id",
+                "stamped_with_the_query_time", "result.unix_time == int(t)",
+                "a_new_object_inputs_untouched", "is_new(result) and allocated(result) and object_1.state is old(object_1.state) and object_1.unix_time == old(object_1.unix_time)")
+    P.verify(f"{GEO}:interpolate_dynamic_object", name="interpolate_dynamic_object",
+             contract=Contract(f"{GEO}:interpolate_dynamic_object", cut=False, params=dict(tp, object_1=DO, object_2=DO),
+                               requires=E("distinct_times", "t1 < t2"),
+                               raises={"AssertionError": "not (t1 <= t and t <= t2) or object_1.uuid != object_2.uuid"}, ensures=obj_ens),
+             extra_contracts={idx.lookup(f"{GEO}:interpolate_state").fq: state_cut})
     P.uncover("interpolate_object_list / interpolate_state / interpolate_quaternion / interpolate_ground_truth_frames bodies: "
               "interpolate_ground_truth_frames is cut at an assumed contract (stamped with the query time, built from the two given frames); "
               "the per-object pose clauses (shortest rotation arc, objects in one neighbour kept) are not decided in this build")
